@@ -37,5 +37,10 @@ META = {
     "C07": _m("On generated conflict-free universes (premise re-evaluated by TLC) the returned selection must equal the first-choice closure, under all hint patterns, candidate permutations and async schedules.", "6 C07", "TLA+ trace validation (TLC)"),
     "C08": _m("TLC decides DirectBestFeasible by seeded search and requires the best direct candidates in the result, for several activity parameters and hint patterns.", "6 C08", "TLA+ trace validation (TLC)"),
     "C09": _m("Every provider call of a run (and of histories on one solver) is judged by TLC: never repeated, causally allowed by records already returned, and exactly the closure's calls on conflict-free problems.", "6 C09", "TLA+ trace validation (TLC) of the provider call stream"),
+    "C10": _m("Async runs under FIFO, LIFO and seeded random completion orders (gate runtime: every provider future completes only when the scheduler opens its gate) are validated by TLC: never a quiescent point without a pending request (deadlock), no duplicate provider call, valid solution, oracle verdict, and the same verdict as the synchronous run of the same problem (paired runs).", "6 C10", "TLA+ trace validation (TLC) of executions under controlled completion orders"),
+    "C11": _m("At every recorded quiescent point TLC requires that every package name mentioned by a dependency record already returned has had its get_candidates issued (MaxIssued).", "6 C11", "TLA+ trace validation (TLC) of quiescent pending sets"),
+    "C12": _m("Fault enumeration: a dry run counts the polls of a case, then the case is re-run with cancellation fired at every poll index (sticky and transient), sync and async FIFO/LIFO; TLC requires Cancelled with exactly that value, no get_candidates/get_dependencies call after the firing poll, and never a solution or conflict instead; the never-firing run is validated like any other run.", "6 C12", "TLA+ trace validation (TLC) over enumerated cancellation points", level="fault_enumeration"),
+    "C13": _m("Histories of 2-4 problems on one solver (same/different problems, after Unsolvable, after Cancelled at every poll index with requests in flight, sync and async) are validated by TLC per solve with a fresh oracle; metadata already returned must never be requested again.", "6 C13", "TLA+ trace validation (TLC) of multi-solve histories"),
+    "C15": _m("Generated wide universes (one package with n candidates, revealed through 1-3 requirements in several orders) require candidate pairs (must be Unsolvable per the oracle) and single candidates (must be solvable); every n <= 9 with all pairs, and n in {15,16,17,31,32,33,40} with all pairs; verdict and validity judged by TLC.", "6 C15", "TLA+ trace validation (TLC) of enumerated wide-package problems"),
     "C14": _m("Soft-requirement problems: validity with the documented exemption, no error when the hard problem is satisfiable, and inclusion of the cleanly compatible prefix (SoftObliged), all evaluated by TLC.", "6 C14", "TLA+ trace validation (TLC)"),
 }
